@@ -45,6 +45,69 @@ def case_table(rep):
     rep.cov["limit_case_table"] = n
 
 
+def hybrid_worker(args):
+    """event models that also carry explicit ODE terms: under tau-leaping the deterministic drift is part of the proposed
+    step.  States are no longer integers, so these runs are judged here directly: every recorded state within its limits."""
+    import random
+    import numpy as np
+    from harness import record_jump as rj
+    from pygom import Transition
+    seed, idx = args
+    rng = random.Random((seed << 16) + idx)
+    defn, theta, x0, lims = rj.random_jump_model(rng, limits=True)
+    out = {"idx": idx, "describe": defn.describe(), "x0": x0, "lims": lims, "bad": [], "runs": 0}
+    try:
+        m, _ = rj.make_model(defn, theta, x0, lims, rng)
+        sy = defn.sy
+        # a drift that pushes one state towards one of its limits
+        cand = [i for i, (lo, hi) in enumerate(lims) if lo is not None or hi is not None]
+        if not cand:
+            return out
+        i = rng.choice(cand)
+        lo, hi = lims[i]
+        k = rng.choice([2.0, 5.0, 12.0])
+        eqn = ("-%g*%s - %g" % (k, sy.states[i], k)) if (lo is not None and (hi is None or rng.random() < 0.5)) else ("%g*%s + %g" % (k, sy.states[i], k))
+        m.add_ode(Transition(origin=sy.states[i], equation=eqn, transition_type="ODE"))
+        out["drift"] = {"state": sy.states[i], "equation": eqn}
+    except Exception as ex:
+        out["bad"].append({"what": "model construction raised", "detail": repr(ex)[:200]})
+        return out
+    r0 = max(sum(rj.rate_float(defn, theta, x0)), 1e-6)
+    T = min(3.0, 20.0 / r0)
+    for pre_tau in (None, T / 4.0, T / 2.0):
+        np.random.seed((seed * 17 + idx * 5 + out["runs"]) % (2 ** 31))
+        m.pre_tau = pre_tau
+        m.initial_values = (np.array(x0, float), np.float64(0))
+        import signal
+
+        class _Slow(BaseException):
+            pass
+
+        def _alarm(signum, frame):
+            raise _Slow()
+        signal.signal(signal.SIGALRM, _alarm)
+        signal.alarm(20)
+        try:
+            X, J, Tm = m.solve_stochast(T, 1, exact=False, full_output=True)
+            signal.alarm(0)
+        except _Slow:
+            continue
+        except Exception as ex:
+            signal.alarm(0)
+            out["bad"].append({"what": "solve_stochast raised", "detail": repr(ex)[:200], "pre_tau": pre_tau})
+            continue
+        out["runs"] += 1
+        A = np.asarray(X[0], float).reshape(len(X[0]), -1)
+        for j, (lo, hi) in enumerate(lims):
+            if lo is not None and np.min(A[:, j]) < lo - 1e-9:
+                out["bad"].append({"what": "recorded state below its lower limit", "state": j, "value": float(np.min(A[:, j])), "limit": lo, "pre_tau": pre_tau})
+                break
+            if hi is not None and np.max(A[:, j]) > hi + 1e-9:
+                out["bad"].append({"what": "recorded state above its upper limit", "state": j, "value": float(np.max(A[:, j])), "limit": hi, "pre_tau": pre_tau})
+                break
+    return out
+
+
 def run(rep, tier, seed):
     quick = tier == "quick"
     jc.run_mc_jump(rep, tier, only=("sirb_tau", "bd2_tau", "mt_exact", "one_tau"))
@@ -63,6 +126,14 @@ def run(rep, tier, seed):
     results = mc.pool_map(jc.model_worker, jobs)
     judge(rep, results, {"limits", "invariant:InLimitsNow", "invariant:RejectedStepChangesNothing"}, "C11",
           python_findings=False)
+    hres = mc.pool_map(hybrid_worker, [(seed % 100000 + 12, i) for i in range(24 if quick else 300)])
+    for r in hres:
+        rep.count(r["runs"])
+        for b in r["bad"]:
+            rep.violation("event model with a deterministic drift: %s" % b, {"definition": r["describe"], "x0": r["x0"], "lims": r["lims"],
+                                                                              "drift": r.get("drift"), "finding": b},
+                          key="hybrid|%s" % b["what"])
+    rep.cov["hybrid_models_with_drift"] = len(hres)
     lim_kinds = {}
     for r in results:
         for lo, hi in r["lims"]:
